@@ -57,7 +57,7 @@ func refCode(name string) (string, error) {
 }
 
 func checkC18(r *report.Report, tier string, seed int64) error {
-	r.Rule = "complete product: 2^4 flag combinations (-out, -log, -dry, -print; flag spellings varied) x input path spellings (relative in cwd, nested relative, ./ prefix, absolute, dotted directory, file without extension... ) x GOFILE/positional x fixed accepted inputs; a case is non-trivial when the tool was actually run and produced an observation; distinct by (input, argv, cwd, GOFILE)"
+	r.Rule = "complete product: 2^4 flag combinations (-out, -log, -dry, -print; flag spellings varied) x input path spellings (relative in cwd, nested relative, ./ prefix, absolute, dotted directory, file without extension... ) x -out spellings (next to the input, absolute, a bare file name while the input lies in another directory) x GOFILE/positional x fixed accepted inputs; a case is non-trivial when the tool was actually run and produced an observation; distinct by (input, argv, cwd, GOFILE)"
 	r.Exhaustive = true
 	inputs := []string{"simple", "twointf", "hooks"}
 	if tier == "quick" {
@@ -72,18 +72,24 @@ func checkC18(r *report.Report, tier string, seed int64) error {
 		ref[in] = c
 	}
 
-	type layout struct{ dir, file, cwd string; abs, dotslash bool }
+	type layout struct {
+		dir, file, cwd string
+		abs, dotslash  bool
+		bareOut        bool // -out is a bare file name: relative to the working directory, not to the input
+	}
 	layouts := []layout{
-		{"pk", "setup.go", "pk", false, false},
-		{"pk", "setup.go", "", false, false},
-		{"pk", "setup.go", "pk", false, true},
-		{"pk", "setup.go", "", true, false},
-		{"a.b/pk", "setup.go", "", false, false},
-		{"a.b/pk", "conv.setup.go", "a.b", false, false},
-		{"pk", "setup.x", "pk", false, false}, // unusual extension (not .go: the loader rejects it -> failing run)
+		{"pk", "setup.go", "pk", false, false, false},
+		{"pk", "setup.go", "", false, false, false},
+		{"pk", "setup.go", "pk", false, true, false},
+		{"pk", "setup.go", "", true, false, false},
+		{"a.b/pk", "setup.go", "", false, false, false},
+		{"a.b/pk", "conv.setup.go", "a.b", false, false, false},
+		{"pk", "setup.go", "", false, false, true},
+		{"a.b/pk", "setup.go", "a.b", false, false, true},
+		{"pk", "setup.x", "pk", false, false, false}, // unusual extension (not .go: the loader rejects it -> failing run)
 	}
 	if tier == "quick" {
-		layouts = layouts[:6]
+		layouts = layouts[:8]
 	}
 	var cs []cliCase
 	for _, in := range inputs {
@@ -113,6 +119,9 @@ func checkC18(r *report.Report, tier string, seed int64) error {
 						}
 						if l.abs {
 							out = "@ABS@/" + l.dir + "/custom_out.go"
+						}
+						if l.bareOut {
+							out = "bare_out.go"
 						}
 						c.OutFlag = out
 						if mask&2 != 0 {
